@@ -405,3 +405,18 @@ func ReplayKey(path string) (string, error) {
 	k, _ := m["key"].(string)
 	return k, nil
 }
+
+// Find returns whether an obligation whose key contains substr exists for rule, and whether it failed.
+func (c *Ctx) Find(rule, substr string) (found, failed bool, msg string) {
+	for _, k := range c.order {
+		o := c.obs[k]
+		if o.Rule == rule && strings.Contains(o.Key, substr) {
+			found = true
+			if o.st != Discharged {
+				failed = true
+				msg = o.Msg
+			}
+		}
+	}
+	return
+}
